@@ -349,6 +349,7 @@ func RunCoh(c *core.Ctx) {
 			}
 			// TypeBuilder counts
 			checkTypeBuilder(c, g, base, len(enums), len(msgs))
+			checkMsgInfos(c, g, base, msgs, msgGo)
 		}
 		// ---- per message API
 		fdVars := fdVarMap(g)
@@ -467,7 +468,92 @@ func checkTypeBuilder(c *core.Ctx, g *model.GenPkg, base string, nEnums, nMsgs i
 	ok := got["NumEnums"] == strconv.Itoa(nEnums) && got["NumMessages"] == strconv.Itoa(nMsgs) && got["RawDescriptor"] == base+"_rawDesc" &&
 		got["GoTypes"] == base+"_goTypes" && got["DependencyIndexes"] == base+"_depIdxs" && (nMsgs == 0 || got["MessageInfos"] == base+"_msgTypes") && (nEnums == 0 || got["EnumInfos"] == base+"_enumTypes")
 	c.Check(ok, "COH.builder", con, fmt.Sprintf("NumEnums=%d NumMessages=%d and the file's own tables", nEnums, nMsgs), fmt.Sprintf("TypeBuilder literal %v does not match %d enums / %d messages / the file's own tables", got, nEnums, nMsgs), pos(c, g, initFn.Pos()), src)
-	// OneofWrappers and Exporter assignments: msgTypes[k] must be paired with message k's Go type
+}
+
+// checkMsgInfos: in the file's init function, msgTypes[k].OneofWrappers lists exactly the wrappers of
+// message k and msgTypes[k].Exporter asserts message k's Go type.
+func checkMsgInfos(c *core.Ctx, g *model.GenPkg, base string, msgs []protoreflect.MessageDescriptor, msgGo map[protoreflect.FullName]*model.Msg) {
+	src := g.Source
+	initFn := g.Funcs[base+"_init"]
+	if initFn == nil {
+		return
+	}
+	info := g.Info
+	idxOf := func(x ast.Expr) (int, string, bool) {
+		// file_x_msgTypes[k].Field
+		sel, ok := x.(*ast.SelectorExpr)
+		if !ok {
+			return 0, "", false
+		}
+		ie, ok := sel.X.(*ast.IndexExpr)
+		if !ok || types.ExprString(ie.X) != base+"_msgTypes" {
+			return 0, "", false
+		}
+		k, ok := constIntE(info, ie.Index)
+		return int(k), sel.Sel.Name, ok
+	}
+	seenW := map[int]bool{}
+	ast.Inspect(initFn.Body, func(n ast.Node) bool {
+		as, ok := n.(*ast.AssignStmt)
+		if !ok || len(as.Lhs) != 1 || len(as.Rhs) != 1 {
+			return true
+		}
+		k, field, ok := idxOf(as.Lhs[0])
+		if !ok {
+			return true
+		}
+		con := fmt.Sprintf("%s %s_msgTypes[%d].%s", g.Name, base, k, field)
+		if k < 0 || k >= len(msgs) || msgGo[msgs[k].FullName()] == nil {
+			c.Fail("COH.msginfo", con, "index does not denote a message with a Go type", c.PosStr(g.Fset, as.Pos()), src)
+			return true
+		}
+		m := msgGo[msgs[k].FullName()]
+		switch field {
+		case "OneofWrappers":
+			seenW[k] = true
+			var got []string
+			if cl, ok := as.Rhs[0].(*ast.CompositeLit); ok {
+				for _, e := range cl.Elts {
+					if call, ok := ast.Unparen(e).(*ast.CallExpr); ok {
+						if tv, ok := info.Types[call.Fun]; ok && tv.IsType() {
+							got = append(got, tq(tv.Type))
+						}
+					}
+				}
+			}
+			var want []string
+			for _, f := range m.Fields {
+				if f.Oneof != nil {
+					want = append(want, "*"+tq(f.Wrapper))
+				}
+			}
+			sort.Strings(got)
+			sort.Strings(want)
+			c.Check(strings.Join(got, ",") == strings.Join(want, ","), "COH.msginfo", con, fmt.Sprintf("%d wrappers of message %s", len(want), m.GoName),
+				fmt.Sprintf("wrapper list %v is not the set of oneof wrappers of message %s (%v)", got, m.GoName, want), c.PosStr(g.Fset, as.Pos()), src)
+		case "Exporter":
+			okT := false
+			ast.Inspect(as.Rhs[0], func(x ast.Node) bool {
+				if ta, ok := x.(*ast.TypeAssertExpr); ok && ta.Type != nil {
+					if t := info.TypeOf(ta.Type); t != nil && types.Identical(t, types.NewPointer(m.Named)) {
+						okT = true
+					}
+				}
+				return true
+			})
+			c.Check(okT, "COH.msginfo", con, "exporter asserts *"+m.GoName, "exporter of this message info does not assert *"+m.GoName, c.PosStr(g.Fset, as.Pos()), src)
+		}
+		return true
+	})
+	for k, md := range msgs {
+		m := msgGo[md.FullName()]
+		if m == nil || len(m.Oneofs) == 0 {
+			continue
+		}
+		if !seenW[k] {
+			c.Fail("COH.msginfo", fmt.Sprintf("%s %s_msgTypes[%d].OneofWrappers", g.Name, base, k), "message "+m.GoName+" has oneofs but its message info has no wrapper list", "", src)
+		}
+	}
 }
 
 // mdVarMap: md_X package variable -> message path ("A" / "A.B.C"), from chains
